@@ -450,7 +450,17 @@ func BuildSeqHeaderFromVpsSpsPps(vps, sps, pps []byte) ([]byte, error) {
 	return sh, nil
 }
 
-func ParseVps(vps []byte, ctx *Context) error {
+// recoverBitReaderPanic nazabits.BitReader indexes past its buffer (panic) when an exp-golomb code word `1` is the
+// very last bit of the buffer. vps and sps are untrusted input, turn that into an error.
+func recoverBitReaderPanic(err *error) {
+	if r := recover(); r != nil {
+		*err = nazaerrors.Wrap(base.ErrHevc)
+	}
+}
+
+func ParseVps(vps []byte, ctx *Context) (err error) {
+	defer recoverBitReaderPanic(&err)
+
 	if len(vps) < 2 {
 		return nazaerrors.Wrap(base.ErrHevc)
 	}
@@ -466,8 +476,8 @@ func ParseVps(vps []byte, ctx *Context) error {
 		return nazaerrors.Wrap(base.ErrHevc)
 	}
 
-	vpsMaxSubLayersMinus1, err := br.ReadBits8(3)
-	if err != nil {
+	vpsMaxSubLayersMinus1, e := br.ReadBits8(3)
+	if e != nil {
 		return nazaerrors.Wrap(base.ErrHevc)
 	}
 	if vpsMaxSubLayersMinus1+1 > ctx.NumTemporalLayers {
@@ -484,8 +494,8 @@ func ParseVps(vps []byte, ctx *Context) error {
 	return parsePtl(&br, ctx, vpsMaxSubLayersMinus1)
 }
 
-func ParseSps(sps []byte, ctx *Context) error {
-	var err error
+func ParseSps(sps []byte, ctx *Context) (err error) {
+	defer recoverBitReaderPanic(&err)
 
 	if len(sps) < 2 {
 		return nazaerrors.Wrap(base.ErrHevc)
